@@ -4,7 +4,7 @@
 # Writes /verif/seeded/_staging/confirm.log (one line per mutant) .
 WT=/tmp/wt-confirm
 LOG=/verif/seeded/_staging/confirm.log
-: > $LOG
+touch $LOG; sed -i "/^DONE/d" $LOG
 if [ ! -d $WT ]; then git -C /repo worktree add --detach $WT HEAD >/dev/null 2>&1; cp -r /repo/target $WT/target; fi
 cd $WT || exit 2
 git checkout -q --detach $(git -C /repo rev-parse HEAD); git checkout -q -- . ; git clean -fdq tests src
@@ -14,6 +14,7 @@ for d in /verif/seeded/_staging/C*/; do
     patch=$d/m$k.patch.diff; [ -f $d/m$k.ported.diff ] && patch=$d/m$k.ported.diff
     demo=$d/m$k.demo.rs
     [ -f $patch ] || continue
+    grep -q "^$id/m$k " $LOG && continue
     git checkout -q -- . ; git clean -fdq tests src
     cp $demo tests/demo_$k.rs
     # without the patch: demo passes
@@ -23,7 +24,7 @@ for d in /verif/seeded/_staging/C*/; do
     fi
     git reset -q
     with=$(cargo nextest run --offline --no-fail-fast --test demo_$k 2>&1 | grep -E "^\s+Summary|error\[" | tail -1)
-    suite=$(cargo nextest run --workspace --offline --no-fail-fast --test-threads 8 -E "not binary(demo_$k)" 2>&1 | grep -E "^\s+Summary" | tail -1)
+    suite=$(cargo nextest run --workspace --offline --no-fail-fast --test-threads 8 --tool-config-file pb:/w/lib/nextest.toml --profile pb -E "not binary(demo_$k)" 2>&1 | grep -E "^\s+Summary" | tail -1)
     echo "$id/m$k patch=$(basename $patch) | base: $base | with-patch demo: $with | suite: $suite" >> $LOG
   done
 done
